@@ -1,4 +1,5 @@
 import BycycleModel.Shape
+import Proofs.ShapeAux
 /-!
 # Helper lemmas for C04 (shape features)
 -/
@@ -9,8 +10,8 @@ inside the signal and tile (both guaranteed by C01) — tiling is what makes the
 `[troughs[i], troughs[i+1])` coincide with `[last side, next side)`. -/
 theorem shapePeak_eq_spec (x amp : List Rat) (rows : List SampleRow) (hne : rows ≠ [])
     (hin : ∀ r ∈ rows, r.inside x.length) (ht : tiles rows) :
-    shapePeak x amp rows = .ok (rows.map (shapeSpecPeak x amp)) := by
-  sorry
+    shapePeak x amp rows = .ok (rows.map (shapeSpecPeak x amp)) :=
+  shapePeak_eq_spec_aux x amp rows hne hin ht
 
 /-- trough-centred table: analysing the NEGATED signal, renaming and flipping as generated from
 `rename_extrema_df` gives the documented definitions read against the ORIGINAL signal with trough-centred
@@ -19,7 +20,14 @@ theorem shapeTrough_eq_spec (x amp : List Rat) (rows : List SampleRow) (hne : ro
     (hin : ∀ r ∈ rows, r.inside x.length) (ht : tiles rows) :
     shapeFeatures .trough (x.map (- ·)) amp rows =
       .ok (rows.map fun r => shapeSpecTrough x amp (Slots.renameSamples r)) := by
-  sorry
+  have hin' : ∀ r ∈ rows, r.inside (x.map (- ·)).length := by
+    intro r hr; rw [List.length_map]; exact hin r hr
+  unfold shapeFeatures
+  simp only [shapePeak_eq_spec_aux (x.map (- ·)) amp rows hne hin' ht, Except.map, List.map_map,
+    Except.ok.injEq]
+  apply List.map_congr_left
+  intro r hr
+  exact flip_rename_spec x amp r (hin r hr)
 
 theorem shapeSpecPeak_identities (x amp : List Rat) (r : SampleRow) (h : r.inside x.length) :
     (shapeSpecPeak x amp r).period = r.nextTrough - r.lastTrough ∧
@@ -27,7 +35,12 @@ theorem shapeSpecPeak_identities (x amp : List Rat) (r : SampleRow) (h : r.insid
     (shapeSpecPeak x amp r).voltAmp = ((shapeSpecPeak x amp r).voltRise + (shapeSpecPeak x amp r).voltDecay) / 2 ∧
     (∃ q, (shapeSpecPeak x amp r).timeRdsym = .fin q ∧ 0 < q ∧ q < 1) ∧
     (∃ q, (shapeSpecPeak x amp r).timePtsym = .fin q ∧ 0 ≤ q ∧ q ≤ 1) := by
-  sorry
+  obtain ⟨h1, h2, h3, h4, h5, h6, h7, h8, h9, h10⟩ := h
+  refine ⟨rfl, ?_, rfl, ?_, ?_⟩
+  · simp only [shapeSpecPeak]; omega
+  · exact divRat_strict _ _ (by omega) (by omega)
+  · simp only [shapeSpecPeak]
+    exact divRat_weak _ _ (by omega) (by omega) (by omega)
 
 theorem shapeSpecTrough_identities (x amp : List Rat) (r : SampleRow) (h : r.inside x.length) :
     let s := shapeSpecTrough x amp (Slots.renameSamples r)
@@ -36,7 +49,14 @@ theorem shapeSpecTrough_identities (x amp : List Rat) (r : SampleRow) (h : r.ins
     s.voltAmp = (s.voltRise + s.voltDecay) / 2 ∧
     (∃ q, s.timeRdsym = .fin q ∧ 0 < q ∧ q < 1) ∧
     (∃ q, s.timePtsym = .fin q ∧ 0 ≤ q ∧ q ≤ 1) := by
-  sorry
+  obtain ⟨h1, h2, h3, h4, h5, h6, h7, h8, h9, h10⟩ := h
+  intro s
+  refine ⟨rfl, ?_, rfl, ?_, ?_⟩
+  · simp only [s, shapeSpecTrough, Slots.renameSamples]; omega
+  · simp only [s, shapeSpecTrough, Slots.renameSamples]
+    exact divRat_strict _ _ (by omega) (by omega)
+  · simp only [s, shapeSpecTrough, Slots.renameSamples]
+    exact divRat_weak _ _ (by omega) (by omega) (by omega)
 
 /-- band_amp is the mean over the half-open window `[last side, next side)`: the sample at the next side
 extremum does not contribute, the one at the last side does. -/
@@ -44,6 +64,9 @@ theorem bandAmp_window (x amp : List Rat) (r : SampleRow) (h : r.inside x.length
     (shapeSpecPeak x amp r).bandAmp =
       .fin (sumRat ((List.range (r.nextTrough - r.lastTrough).toNat).map fun j => amp.getD (r.lastTrough.toNat + j) 0)
             / ((r.nextTrough - r.lastTrough).toNat : Rat)) := by
-  sorry
+  obtain ⟨h1, h2, h3, h4, h5, h6, h7, h8, h9, h10⟩ := h
+  have e : (r.nextTrough - r.lastTrough).toNat = r.nextTrough.toNat - r.lastTrough.toNat := by omega
+  rw [e]
+  exact specBand_window amp r.lastTrough.toNat r.nextTrough.toNat (by omega) (by omega)
 
 end Bycycle
